@@ -1427,10 +1427,12 @@ func (c *compiler) VisitBinaryExpr(e *ast.BinaryExpr) ast.VisitResult {
 			c.latestReturnType = c.ddpinttyp
 		}
 	case ast.BIN_LEFT_SHIFT:
+		rhs = c.numericCast(rhs, rhsTyp, lhsTyp) // the shift count must have the width of the shifted value
 		c.latestReturn = c.cbb.NewShl(lhs, rhs)
 		c.latestReturnType = c.ddpinttyp
 		c.latestReturnType = lhsTyp
 	case ast.BIN_RIGHT_SHIFT:
+		rhs = c.numericCast(rhs, rhsTyp, lhsTyp) // the shift count must have the width of the shifted value
 		c.latestReturn = c.cbb.NewLShr(lhs, rhs)
 		c.latestReturnType = lhsTyp
 	case ast.BIN_EQUAL:
